@@ -8,7 +8,8 @@
  R3 no step executed inside the estimand / level / aggregate loops draws from a persistent random generator unless it is behind
     a run-once guard; shuffles and resampling inside the loops construct their generator freshly from the seed;
  R4 in-place column writes on the shared unit frames inside the loops use a column name that contains every request parameter
-    the written value depends on (pred_turnout is the documented exception: it exists for the margin estimand only).
+    the written value depends on (pred_turnout is the documented exception: it exists for the margin estimand only);
+ R5 no closure reading a loop variable is stored beyond its iteration (late binding) anywhere in the package.
 """
 from __future__ import annotations
 
@@ -39,6 +40,7 @@ def check(ctx):
     merge_keys(ctx, "C13.R1")
     _caches(ctx)
     _estimand_scope(ctx)
+    _late_binding(ctx)
     _generators(ctx)
     _column_writes(ctx)
 
@@ -150,6 +152,23 @@ def _caches(ctx):
             res_key = ast.unparse(st.targets[0].slice)
         ctx.ob("C13.R2.client", f"{ge.qualname}|result stored under its level", res_key == lv, ge.where(c),
                "the result is stored under its own level" if res_key == lv else f"result stored under {res_key}")
+
+
+def _late_binding(ctx):
+    """R5: no closure that reads a loop variable (estimand, level, aggregate ..) is stored beyond its iteration anywhere in the
+    package: such a closure computes with the LAST value of the variable, i.e. with another request's parameter."""
+    n = 0
+    for f in ctx.repo.all_functions():
+        if f.parent is not None:
+            continue
+        for clo, var, loop in util.late_binding_closures(f.node):
+            n += 1
+            ctx.ob("C13.R5.late-binding", util.key(f, clo), False, f.where(clo),
+                   f"a closure stored inside the iteration over '{var}' reads '{var}' only when it is called, after the iteration: with several "
+                   f"requested values every stored closure uses the last one")
+    if n == 0:
+        ctx.ob("C13.R5.late-binding", "package|no closure outlives its loop variable", True, "src/elexmodel",
+               "no lambda / local function reading a loop variable is stored beyond its iteration")
 
 
 def _estimand_scope(ctx):
